@@ -12,7 +12,11 @@ CLAIMED = {
             "strictly descending grid containing their end points with gaps wider than the tol*10 activity window (extra rows from "
             "utilities or insertions allowed): every row of the model cascade carries exactly the heat content of the streams above "
             "it; Qh is the supremum over ALL temperatures of the exact net deficit and is attained; Qc = Qh - cold duty + hot duty; "
-            "Qr = hot duty - Qc; all three >= 0; they equal the grid-free reference maximum over the streams' own end points. "
+            "Qr = hot duty - Qc; all three >= 0; they equal the grid-free reference maximum over the streams' own end points; for ARBITRARY "
+            "(off-lattice) end points the table targets equal the reference of the streams rounded to 6 decimals; the tol*10 activity window is "
+            "shown to lose heat on a narrower interval (C01_window_refuted = finding D44). Composed with the C10 zone-tree model: EVERY zone of "
+            "the synthesised hierarchy (root, intermediate zones, generated leaves) runs its cascade on a permutation of the streams labelled "
+            "into it, the stage is order-independent, hence its targets are the exact reference of those streams. "
             "Tie: the model table is compared cell by cell inside coqc with create_problem_table_with_t_int+problem_table_algorithm "
             "on both scales, and every '<zone>/Direct Integration' record of pinch_analysis_service is compared with the reference "
             "computed in Coq from the INPUT numbers (through the verified Stream model).",
@@ -39,7 +43,9 @@ CLAIMED = {
             "Theorems: the exact net-deficit function is invariant at every temperature under permutation of streams, splitting a stream at "
             "an intermediate temperature or into parallel branches, translates with a uniform shift, scales with the duties, and under "
             "mirroring becomes D + hot duty - cold duty (so Qh and Qc swap); a transfer theorem moves each invariance to the attained supremum, "
-            "i.e. (by C01) to the direct-integration targets. Total-site records, utility duties and pinch temperatures are decided by "
+            "i.e. (by C01) to the direct-integration targets. The same invariances are proved directly on the MODEL OF THE ALGORITHM (cpsum/pta/"
+            "stage_model) with no robustness hypothesis: stream order gives the identical table cell by cell, translation adds d to the T column "
+            "and leaves every other column identical, scaling by k>=0 multiplies every CP/dH/H cell and the three targets by k. Total-site records, utility duties and pinch temperatures are decided by "
             "running the implementation on every problem together with its seven transformed twins and relating EVERY record pair in coqc.",
             "As C01; zone renaming/reordering and the non-DI records rest on the twin comparison only."),
     "C03": ("DESIGN.md 8/C03",
@@ -57,20 +63,28 @@ CLAIMED = {
     "C04": ("DESIGN.md 8/C04",
             "Theorems (closed): the lowest-grade-first allocation dominates prefix-wise every allocation whose prefix sums stay under the "
             "pocket-free demand (independent closed-form optimum, any ladder order, with tol); on a monotone segment the duties of utilities "
-            "at or below a level never exceed the demand at that level (feasibility, any ladder). Row-by-row 0 <= H_ut <= H_np of the cascade "
-            "and the closed-form duties are evaluated in coqc on every DI target's own table (stage and end-to-end).",
-            "Open finding D39 (slope bound of gliding utilities: H_ut > H_np, refuted-theorem witness). hut_model = closed form at rows is "
-            "evaluated per case, not proved."),
+            "at or below a level never exceed the demand at that level (feasibility, any ladder). For ladders whose utilities are 'gridded' (positive width wider than the activity window, clear of the "
+            "grid, both shifted ends rows of T -- the generated defaults are shown to be) the utility cascade of the model IS the step "
+            "profile of the duties at every row and 0 <= H_ut(T_i) <= demand(T_i) holds at EVERY row on pocket-free segments with rows more "
+            "than tol apart. Row-by-row 0 <= H_ut <= H_np of the cascade and the closed-form duties are additionally evaluated in coqc on "
+            "every DI target's own table (stage and end-to-end).",
+            "Open finding D39 (slope bound of gliding utilities: H_ut > H_np, refuted-theorem witness). Not proved: that H_np restricted to "
+            "a side equals the monotone demand column the row theorem assumes (checked per case); non-gridded ladders (a glide inside the "
+            "process range) stay outside the row theorem."),
     "C07": ("DESIGN.md 8/C07",
             "Theorems (closed): the pocket sweep terminates on every table (distance to the pinch shrinks in every iteration, across "
             "insertions), its interpolation is never degenerate; on Robust curves with a pinch the code-shaped index model equals a functional "
             "(zipper) sweep whose H_net_np, as a piecewise-linear function, equals at EVERY temperature the running minimum of the input GCC "
             "towards the far end of its side (0 between the pinches); rows and ends keep Qh and Qc; the spec is the greatest monotone function "
-            "under the GCC; load profiles are monotone, zero at the pinch side and end at Qh / Qc. Tie: get_GCC_without_pockets, "
+            "under the GCC; load profiles are monotone, zero at the pinch side and end at Qh / Qc; the rows of the output are the input rows in order with "
+            "breakpoints woven in EXACTLY where a pocket closes (interval gets one iff H_prev > M > H_next; count = rows + expected breakpoints; "
+            "the crossing is unique; every row lies on the input curve, so the curve is unchanged over the whole table). Repaired defects D2 "
+            "and D56 are pinned by corpus cases and by theorems on the model's output. Tie: get_GCC_without_pockets, "
             "get_additional_GCCs and the load profiles compared column by column in coqc on random and (thorough) ALL curves of <= 7 rows "
             "over 5 levels, plus the running-minimum predicate evaluated on the implementation's own output at rows and midpoints.",
             "Robust hypothesis (robust_b, decidable; tolerance ties skipped as fragile); float rounding compared at 1e-9; insertion modelled "
-            "for one temperature and three columns (general insert = C08); 'no extra breakpoints' checked on outputs only."),
+            "for one temperature and three columns (general insert = C08); non-Robust inputs judged per case only (model = implementation "
+            "plus the running-minimum clause at rows with a 4*tol slack)."),
     "C13": ("DESIGN.md 8/C13",
             "Theorems (closed): emitted composite and grand-composite points are rounded table rows in table order; display rounding error "
             "<= 0.005 (instantiated at the generated DECIMAL_PLACES; breaks if lowered); only flat ends are trimmed, first/last non-flat rows "
